@@ -170,10 +170,10 @@ PCA_REFUSALS = {
     "pciter": ["iter-short", "pc-mixed", "nan"],
 }
 GMRF_REFUSALS = {
-    "array": ["not-numeric", "none", "frozen"],
-    "list": ["ragged", "none", "frozen"],
-    "pc": ["pc-mixed", "frozen"],
-    "pciter": ["iter-short", "pc-mixed", "frozen"],
+    "array": ["features+1", "features-1", "one-column", "vector-1d", "cube-3d", "not-numeric", "none", "frozen"],
+    "list": ["features+1", "features-1", "ragged", "none", "frozen"],
+    "pc": ["pc-size", "pc-mixed", "frozen"],
+    "pciter": ["iter-short", "pc-size", "pc-mixed", "frozen"],
 }
 
 
@@ -968,10 +968,8 @@ class C11(Check):
             "argument forms (integer payload in float32 / int64 / int32 / int16 / int8 / uint8 / uint16, python lists and tuples of floats and ints, numpy scalars, "
             "lists of rows, read-only, strided, Fortran-order, numpy-integer n_samples) are letters only where the unchanged tree accepts them: the PCA constructor "
             "refuses integer and read-only input (it centres in place), so those forms are fed to increment() only; np.matrix is refused / mis-indexed; bool is not a sample matrix",
-            "refused-call letters exist only where the unchanged tree refuses cleanly.  NOT letters (reported to the coordinator): a GMRF increment with the wrong number of features "
-            "(or a 1-d / 3-d / one-column block) raises ValueError / IndexError only after `self.precision = 0` and after the edge covariances have been advanced in place, so the model "
-            "is left without a precision matrix and later valid increments disagree with the batch model; NaN / inf samples are accepted silently by the GMRF (and an empty block by the "
-            "uncentred PCA model), so they are not refusals at all",
+            "refused-call letters exist only where the tree refuses: NaN / inf samples are accepted silently by the GMRF (and an empty block by the uncentred PCA model), so they are "
+            "not refusals at all; the GMRF shape refusals (wrong number of features, 1-d, 3-d, one-column) are letters since fix D36",
             "'random chunkings for larger n' of the quantifier are sampling and outside the technique; every composition of every n in scope is covered instead",
             "states reached by different chunkings of the same prefix are merged when their observations agree within a tenth of the tolerance (after their own step oracle passed); "
             "merge=0 roots and the thorough-tier confluence re-expansion do not rely on that abstraction",
